@@ -11,10 +11,16 @@ use acme_common::error::Error;
 use async_lock::RwLock;
 use futures::stream::FuturesUnordered;
 use futures::StreamExt;
+#[cfg(not(feature = "breard_r_acmed_verif"))]
 use std::collections::HashMap;
+#[cfg(feature = "breard_r_acmed_verif")]
+use crate::verif::detmap::DetMap as HashMap;
 use std::sync::Arc;
 use std::time::Duration;
+#[cfg(not(feature = "breard_r_acmed_verif"))]
 use tokio::time::sleep;
+#[cfg(feature = "breard_r_acmed_verif")]
+use crate::verif::time::sleep;
 
 pub struct MainEventLoop {
 	certificates: HashMap<String, Certificate>,
@@ -23,6 +29,11 @@ pub struct MainEventLoop {
 }
 
 impl MainEventLoop {
+	#[cfg(feature = "breard_r_acmed_verif")]
+	pub fn verif_accounts(&self) -> &HashMap<String, AccountSync> {
+		&self.accounts
+	}
+
 	pub async fn new(config_file: &str, root_certs: &[&str]) -> Result<Self, Error> {
 		let cnf = config::from_file(config_file)?;
 		let file_hooks = vec![
